@@ -48,6 +48,56 @@ def build(tier, seed):
                            lo, hi, " + a foreign one" if sym_a else "", "an arbitrary subset" if sym_a else "all 3 colours", name),
                 what="thread A's result (every colour index it emits and its colour table) equals what it produces alone, for every "
                      "placement of the preemption and every palette of the other thread"))
+    # O3: component objects shared with documents that other threads encode are never seen in a modified state
+    for path, name in PATHS:
+        obs.append(Ob(
+            oid="O3.shared_objects." + name, sig="u0: bool, u1: bool, u2: bool, w: int, fails: bool",
+            pre=["u0 or u1 or u2", "0 <= w <= 3"], header=HDRC, timeout=T,
+            body=r"""
+    def body():
+        used = [n for n, u in zip(NAMES, (u0, u1, u2)) if u]
+        where = [w] * len(used)
+        if %d == 2:
+            where = [x if x != 0 else 1 for x in where]
+        bad, calls = shared_objects_stable(%d, used, where, raise_in_body=fails and %d != 2)
+        return calls > 0 and bad == []
+    return with_tables([2, 3, 1], False, body)
+""" % (path, path, path),
+            funcs=["rtflite.encoding.unified_encoder:UnifiedRTFEncoder.encode", "rtflite.encoding.unified_encoder:UnifiedRTFEncoder._encode_multi_section",
+                   "rtflite.encoding.unified_encoder:UnifiedRTFEncoder._encode_figure_only"],
+            stubs=STUB_COLOR + ["component encoders / body section -> probes", "any other thread -> an observer of the caller-owned component objects "
+                                "(page, title, footnote, page header, column headers, bodies) at every call boundary into the colour API"],
+            bounds="%s path, palette an arbitrary non-empty subset of 3 colours on body | title | page header | footnote; the body "
+                   "section succeeds or raises ValueError; observation at every call boundary of the encode and after it" % name,
+            what="at no call boundary during an encode - nor after it returned or raised - does a caller-owned component object differ "
+                 "from its value at the start: a thread encoding another document that shares the object never reads a temporary value"))
+    # O4: the width measurement that drives pagination, with a second thread measuring at every call boundary
+    obs.append(Ob(
+        oid="O4.width_measurement", sig="fb: int, fc: int, zb: int, zc: int, k: int",
+        pre=["0 <= fb <= 1 and 0 <= fc <= 1", "0 <= zb <= 1 and 0 <= zc <= 1", "0 <= k <= 11"], timeout=T,
+        header="from vf.h_width import *\nfrom vf.hlib import pick, concrete_int\nFONTS = [1, 4]\nSIZES = [9, 10.5]\n",
+        body=r"""
+    a1 = (1, 9, "abc")
+    a2 = (pick(FONTS, fb), pick(SIZES, zb), "abcd")
+    b = (pick(FONTS, fc), pick(SIZES, zc), "xy")
+    kk = concrete_int(k, 0, 11)
+    fresh_module()
+    alone_a, _, calls = run_measurements([a1, a2])
+    fresh_module()
+    alone_b, _, _ = run_measurements([b])
+    fresh_module()
+    got_a, got_b, calls2 = run_measurements([a1, a2], kk, b)
+    if kk >= calls2:
+        return True                # no such call boundary: schedule not realisable
+    return got_a == alone_a and got_b == alone_b[0]
+""",
+        funcs=["rtflite.strwidth:get_string_width"],
+        stubs=["Pillow -> fonts whose measured length identifies the (font file, size, text) used",
+               "thread B -> a real second thread performing one complete measurement at the chosen call boundary"],
+        bounds="thread A: font 1 at 9pt, then a symbolic font (2 files) and size (2); thread B: one measurement (symbolic font and "
+               "size) run to completion before A's k-th call boundary inside rtflite.strwidth (every Python function of the module, "
+               "truetype, getlength; k in 0..11, solver-enumerated)",
+        what="both threads obtain exactly the widths they obtain alone, wherever the other thread's measurement falls"))
     if not quick:
         for path, name in PATHS:
             obs.append(Ob(
@@ -80,7 +130,8 @@ def build(tier, seed):
         "outside": ["data races inside polars / pydantic-core", "more than two preemptions", "preemptions inside a single call of "
                     "the colour API (the GIL makes each such call's bytecode interleavable in principle; modelled at call "
                     "granularity)", "free-threaded builds"],
-        "assumptions": ["thread B interacts with thread A only through process-global Python objects of rtflite (census)"],
+        "assumptions": ["thread B interacts with thread A only through process-global Python objects of rtflite (census) and through "
+                        "component objects the caller shares between documents (O3)"],
     }
     return obs, meta
 
